@@ -633,3 +633,92 @@ func dotRemovedBehindIsFqdn(c *Ctx, r *Report, rule string) {
 	_ = n
 	r.check(len(bad) == 0, rule, "dnsutil.TrimDomainName", c.pos(fn.Pos()), "by index, or behind IsFqdn", "a dot is trimmed off the name with a strings function (%s) without dns.IsFqdn having said that the final dot is a separator: for a relative name that ends in an escaped dot (`a\\.`) an octet of the last label is cut off and a dangling backslash is left", strings.Join(bad, "; "))
 }
+
+// pointerReaders: the two pointer bits of a length octet are interpreted by UnpackDomainName only: it alone follows
+// a pointer to where it points (both octets of the offset) under the hop limit.
+func pointerReaders(c *Ctx, r *Report, rule string) {
+	r.rule(rule, 1, "a wire octet is tested against the pointer flag 0xC0 in UnpackDomainName only")
+	n := 0
+	var bad []string
+	for _, fn := range c.allFuncs() {
+		if fn.Synthetic != "" {
+			continue
+		}
+		allInstrs(fn, func(in ssa.Instruction) {
+			bin, ok := in.(*ssa.BinOp)
+			if !ok || bin.Op != token.AND {
+				return
+			}
+			k, isK := constIntOf(bin.Y)
+			if !isK || k != 0xC0 {
+				return
+			}
+			// on an octet loaded from a byte slice
+			fromBuf := anyIn(sliceOf(bin.X), func(v ssa.Value) bool {
+				ld, ok := v.(*ssa.UnOp)
+				if !ok {
+					return false
+				}
+				_, isIA := ld.X.(*ssa.IndexAddr)
+				return isIA
+			})
+			if !fromBuf {
+				return
+			}
+			n++
+			if fnDisplay(fn) != "UnpackDomainName" {
+				bad = append(bad, fmt.Sprintf("%s in %s", c.pos(bin.Pos()), fnDisplay(fn)))
+			}
+		})
+	}
+	sort.Strings(bad)
+	r.check(n > 0 && len(bad) == 0, rule, "0xC0", "", "only UnpackDomainName", "compression pointers are recognised outside UnpackDomainName (%s): a shortcut that looks at part of the pointer only (its low octet) takes a pointer to another offset for the one it expects, and the record silently decodes with another name", strings.Join(bad, "; "))
+}
+
+// noPackageState: the listed functions (and the package functions they call) read no package-level variable except
+// error values: what they compute depends on their arguments alone.
+func noPackageState(c *Ctx, r *Report, rule string, names []string, consequence string) {
+	r.rule(rule, len(names), "the listed functions and what they call read no package-level variable but error values and constants tables of the standard library")
+	for _, name := range names {
+		fn := c.ssaFunc(name)
+		if fn == nil {
+			r.cerr(rule, name, "function not found")
+			continue
+		}
+		var fns []*ssa.Function
+		seen := map[*ssa.Function]bool{}
+		var collect func(f *ssa.Function, depth int)
+		collect = func(f *ssa.Function, depth int) {
+			if f == nil || seen[f] || depth > 3 || len(f.Blocks) == 0 || f.Pkg != fn.Pkg {
+				return
+			}
+			seen[f] = true
+			fns = append(fns, f)
+			allInstrs(f, func(in ssa.Instruction) {
+				if ci, ok := in.(ssa.CallInstruction); ok {
+					collect(ci.Common().StaticCallee(), depth+1)
+				}
+			})
+		}
+		collect(fn, 0)
+		var bad []string
+		for _, f := range fns {
+			r.fn(fnDisplay(f))
+			allInstrs(f, func(in ssa.Instruction) {
+				for _, op := range in.Operands(nil) {
+					g, ok := (*op).(*ssa.Global)
+					if !ok || g.Pkg != fn.Pkg {
+						continue
+					}
+					t := g.Type().(*types.Pointer).Elem()
+					if types.Identical(t, types.Universe.Lookup("error").Type()) {
+						continue
+					}
+					bad = append(bad, fmt.Sprintf("%s reads %s (%s)", c.pos(in.Pos()), g.Name(), typeStr(t)))
+				}
+			})
+		}
+		sort.Strings(bad)
+		r.check(len(bad) == 0, rule, name, c.pos(fn.Pos()), "no package state", "%s: %s", strings.Join(uniqStrings(bad), "; "), consequence)
+	}
+}
